@@ -268,9 +268,51 @@ Theorem adaptive_driver_step_factor_bounds :
 Proof. exact adaptive_taus_factor_l. Qed.
 Print Assumptions adaptive_driver_step_factor_bounds.
 
-(* NOT PROVED (adaptive_driver_terminates): that the while loop terminates, i.e. that for the
-   actual stepper some prefix of its outcome sequence drives t to t_end.  This needs a lower
-   bound on the accepted step sizes, which depends on the error estimator of the concrete
-   problem (r <= 1 must eventually hold when tau shrinks); the code has no iteration cap, so
-   termination is not a property of the driver alone.  The theorems above are therefore
-   stated for runs that return ([adaptive_times ... = Some ts]). *)
+(* NOT PROVED -- clause-by-clause account of the property text (properties.jsonl, C12) after the
+   last round.  Theorems are in this file and in Props2.v.
+
+   1. "one step of each DIRK and Rosenbrock integrator satisfies the stage equations of its
+      coefficient tableau (to the Newton tolerance for nonlinear problems)"
+      THEOREMS: dirk_stage_equations, dirk_residual_is_newton_residual, dirk_update_equation,
+      dirk_embedded_equation, dirk_stiffly_accurate_shortcut, rosenbrock_stage_equations[_combined];
+      through the drivers: constant_driver_states, adaptive_driver_states (Props2.v: every call gets
+      the current state and Fx = None or F(state)).
+      WITHOUT THEOREM: (a) that the stage solver of the model IS newton applied to newton_F -- the
+      two are separate models; the link "solve returns (y, F(y)) with |newton_F(y)| < target" is
+      the premise solve_Fz plus newton_result, composed on paper, and checked on the implementation
+      by recording every Newton call of every stage (stage residual oracle);  (b) the premise
+      b = last row of A of the shortcut is what np.allclose tests only up to 1e-8 relative: for a
+      user tableau with b within that distance of, but different from, the last row the shortcut
+      is taken and the update equation holds only up to tau*|b - A_s|*|F|; not bounded by a theorem;
+      (c) floating point: all theorems are over an exact ring; rounding is bounded in the tie.
+   2. "each shipped tableau satisfies the algebraic order conditions for the order it is documented
+      to have, for main and embedded weights"
+      BOUNDED ONLY: vm_compute on the 12 translated tables on every run (coq/gen/C12_tab_*.v), up to
+      the allowance max(64 eps, 8*10^-d) sum|terms| for the truncated literals, orders <= 4.  No
+      theorem that the order conditions imply the order of convergence (the B-series argument), and
+      dirk34 is refuted (open finding, generated refutation obligation).
+   3. "so that y' = const is integrated exactly"
+      THEOREMS: dirk_const_rhs_exact_iff_consistent, dirk_const_rhs_exact (both code paths),
+      rosenbrock_const_rhs, rosenbrock_const_rhs_update, rosenbrock_const_rhs_exact, and over a whole
+      constant-step run constant_driver_states (last conjunct).  Premise: exact stage solves
+      (Newton residuals zero); with Newton's tolerance the statement holds up to the residuals
+      (dirk_stage_equations), not stated as a separate theorem.
+   4. "Constant-step drivers return times t0+k*tau with one state per time"
+      THEOREMS: constant_driver_times, constant_driver_partial, constant_driver_reaches_end,
+      constant_driver_states.  WITHOUT THEOREM: num_iter is ceil of the FLOAT quotient (may add one
+      step); the tie passes the float quotient to the model.
+   5. "adaptive drivers return strictly increasing times that reach the end time, accept only steps
+      passing the scaled error test and change the step by factors within the safety bounds"
+      THEOREMS: adaptive_driver_times, adaptive_driver_accepts_only_passing,
+      adaptive_driver_step_factor_bounds (for every outcome sequence), adaptive_driver_states (the
+      stepper-driven loop refines the outcome-list model).
+      WITHOUT THEOREM: adaptive_driver_terminates -- that the while loop terminates.  It needs a
+      lower bound on the accepted step sizes, which depends on the error estimator of the concrete
+      problem (r <= 1 must eventually hold when tau shrinks); the code has no iteration cap, so
+      termination is not a property of the driver alone.  All adaptive theorems are stated for runs
+      that return.  Also without theorem: the value of r (norm of the scaled difference) and of
+      step_factor * r**(-1/q) are inputs of the model (a real power), and "strictly increasing" is
+      over Q: in floating point t + tau = t is possible for tau < ulp(t) (not excluded by the code).
+   6. "Newton's method returns only points whose residual meets its tolerance and otherwise raises"
+      THEOREMS: newton_result, newton_raises_otherwise, newton_target_is_max.  Nothing open for the
+      model; NaN residuals (comparison false, runs to maxiter and raises) are outside Q. *)
